@@ -274,8 +274,11 @@ func withoutQuery(ts []*model.TypeDef) []*model.TypeDef {
 // yet implement the interface (nor belong to the union); requests are resolved (whatever they answer) so that everything
 // ggql derives lazily from the hierarchy exists; then `extend type X implements Animal` and `extend union Pet = X` arrive
 // as loads of their own (no new type comes with them), and the request is judged against the reference over the final schema.
-func c08Staged(c *run.Ctx) {
-	n := c.N(400, 8000)
+func c08Staged(c *run.Ctx) { stagedHierarchy(c, "c08", c.N(400, 8000)) }
+
+// stagedHierarchy is shared with C01 (the response shape of the final request is the same question asked of the same
+// history); pfx names the violation kinds.
+func stagedHierarchy(c *run.Ctx, pfx string, n int) {
 	for i := 0; i < n && !c.TooMany(); i++ {
 		r := c.Rand(3000000 + i)
 		full := gen.Menagerie(r)
@@ -318,7 +321,7 @@ func c08Staged(c *run.Ctx) {
 		sdl1 := stage1.SDL(o)
 		h, err := back.BuildOpts("reflect", full, sdl1, g, back.Opts{TypedSlices: true})
 		if err != nil {
-			c.Violation("c08-schema-rejected", map[string]interface{}{"sdl": sdl1, "error": err.Error()})
+			c.Violation(pfx+"-schema-rejected", map[string]interface{}{"sdl": sdl1, "error": err.Error()})
 			continue
 		}
 		dc := gen.Doc(r, full, gen.DocOpts{Frags: true, Aliases: true, Abstract: true, Depth: 3 + r.Intn(2), MaxOps: 1})
@@ -335,7 +338,7 @@ func c08Staged(c *run.Ctx) {
 			var lerr error
 			pv, _ := run.Protect(func() { lerr = h.Root.ParseString(e) })
 			if pv != nil || lerr != nil {
-				c.Violation("c08-staged-extension-rejected", map[string]interface{}{"sdl": sdl1, "later_load": e, "error": fmt.Sprint(pv, lerr)})
+				c.Violation(pfx+"-staged-extension-rejected", map[string]interface{}{"sdl": sdl1, "later_load": e, "error": fmt.Sprint(pv, lerr)})
 				okLoads = false
 				break
 			}
@@ -353,7 +356,7 @@ func c08Staged(c *run.Ctx) {
 			c.Sample(map[string]interface{}{"first_load": clip(sdl1, 600), "later_loads": exts, "document": text})
 		}
 		if diff := Compare(exp, out, CompareOpts{StripFragSeg: true}); diff != "" {
-			c.Violation("c08-staged-hierarchy", map[string]interface{}{"first_load": sdl1, "later_loads": exts, "late_implementer": x, "graph": describeGraph(g), "document": text,
+			c.Violation(pfx+"-staged-hierarchy", map[string]interface{}{"first_load": sdl1, "later_loads": exts, "late_implementer": x, "graph": describeGraph(g), "document": text,
 				"diff": diff, "expected": exp.Describe(), "observed": out.Describe()})
 		}
 	}
